@@ -132,8 +132,42 @@ def decide(prop: str, tier: str, seed: int, replay: str | None) -> int:
         ctx.cleanup()
         return 2
 
-    # 5. decide
+    # 4b. failing-input search, escalated: an obligation or the correspondence is broken but the first pass of the
+    #     oracle found no (unlisted) failing input -> run the generators + oracle again under further seeds, within
+    #     a time budget, and stop at the first concrete failing input.  Never run on a healthy tree (nothing broken).
     known = common.known_for(prop)
+    search_note = ""
+    if (broken or out.mismatches) and not replay and not any(match_known(mod, v, known) is None for v in out.violations):
+        budget = 900 if tier == "thorough" else 300
+        t_s = time.time()
+        extra_runs = 0
+        for k in range(1, 9):
+            if time.time() - t_s > budget:
+                break
+            s2 = seed + 7919 * k
+            try:
+                ctx2 = Ctx(prop, tier, s2)
+                ctx2.model_available = ctx.model_available
+                out2 = mod.run(ctx2)
+            except Exception:
+                log("escalated search pass failed:\n" + traceback.format_exc())
+                break
+            extra_runs += 1
+            out.evaluations += out2.evaluations
+            out.distinct |= out2.distinct
+            fresh = [v for v in out2.violations if match_known(mod, v, known) is None]
+            if fresh:
+                for v in fresh:
+                    if isinstance(v.case, dict):
+                        v.case.setdefault("_found_with_seed", s2)
+                out.violations += out2.violations
+                break
+            if not out.mismatches and out2.mismatches:
+                out.mismatches += out2.mismatches
+        search_note = f"; escalated search: {extra_runs} further pass(es) under other seeds in {time.time()-t_s:.0f}s"
+        out.notes.append("escalated failing-input search" + search_note)
+
+    # 5. decide
     known_hits, new_violations = [], []
     for v in out.violations:
         k = match_known(mod, v, known)
@@ -182,7 +216,7 @@ def decide(prop: str, tier: str, seed: int, replay: str | None) -> int:
                 "first_disagreement": first,
                 "case": first["case"] if first else None,
                 "build_log_tail": build_log[-3000:] if broken else "",
-                "search": f"property oracle evaluated on {out.evaluations} generated inputs (disagreeing inputs first): no failing input",
+                "search": f"property oracle evaluated on {out.evaluations} generated inputs (disagreeing inputs first): no failing input" + search_note,
             },
         )
         lines.append(f"VIOLATION property={prop} replay={p} no-failing-input-found")
